@@ -7,6 +7,7 @@ package main
 import (
 	"fmt"
 	"go/token"
+	"go/types"
 	"math/big"
 	"regexp"
 	"sort"
@@ -352,4 +353,53 @@ func ruleToVecChunks(cx *Ctx) []Obligation {
 		}
 	}
 	return []Obligation{bad(key, desc, "no loop over the bit decomposition producing chunks was recognised", where)}
+}
+
+// ruleNoEmptyLimb: in the BN254 sponge (HashNoPad) a rate slot is overwritten only by a limb packed from at least
+// one input element — the chunk rateChunk[j:…] is taken inside a loop whose own continuation test is j < len(rateChunk).
+// (An empty trailing limb would write 0 over a rate element that the overwrite-mode sponge must keep.)
+func ruleNoEmptyLimb(cx *Ctx) []Obligation {
+	P := cx.P
+	key := "C10/sponge/no-empty-limb"
+	desc := "every rate slot written during absorption is packed from a non-empty chunk of the input: the chunk x[j:…] is taken under the loop test j < len(x), so a partial last block keeps the previous lanes (overwrite mode)"
+	fn := P.Func("poseidon", "(*BN254Chip).HashNoPad")
+	if fn == nil {
+		return []Obligation{undecided(key, desc, "poseidon.BN254Chip.HashNoPad not found")}
+	}
+	fi := GetFnInfo(fn)
+	n := 0
+	for _, b := range fn.Blocks {
+		for _, ins := range b.Instrs {
+			sl, ok := ins.(*ssa.Slice)
+			if !ok || sl.Low == nil {
+				continue
+			}
+			// only slices of slices of goldilocks.Variable (the rate chunk → limb chunk), not the outer block split
+			xs, ok := sl.X.Type().Underlying().(*types.Slice)
+			if !ok || !typeIs(xs.Elem(), "goldilocks.Variable") {
+				continue
+			}
+			loops := fi.LoopsOf[b.Index]
+			if len(loops) == 0 {
+				continue
+			}
+			l := loops[len(loops)-1]
+			if l.Parent == nil {
+				continue // the outer split into rate-sized blocks: its last block may be short but is never empty (i < len(input))
+			}
+			n++
+			site := P.Pos(sl.Pos())
+			if !l.Counted || l.Op != token.LSS || stripCopies(sl.Low) != l.IndexVal {
+				return []Obligation{undecided(key, desc, "the limb chunk at "+site+" does not start at the index the enclosing loop tests (cannot show the chunk is non-empty)")}
+			}
+			bx, isLen := lenOfVal(l.Bound)
+			if !isLen || bx != sl.X {
+				return []Obligation{bad(key, desc, "the packing loop is bounded by "+l.Bound.String()+", not by the length of the chunked slice: a limb may be packed from an empty chunk and overwrite a kept lane with 0", site)}
+			}
+		}
+	}
+	if n == 0 {
+		return []Obligation{undecided(key, desc, "no limb chunking found in HashNoPad")}
+	}
+	return []Obligation{good(key, desc, P.FnName(fn))}
 }
